@@ -229,8 +229,8 @@ class Check(PropertyCheck):
             "INITIAL_WINDOW_SIZE, responses in random order, RST_STREAM, WINDOW_UPDATE, GOAWAY / close; half streamed. buf cases: "
             "1-3 streams with send sizes around window and frame size. distinct = distinct script; non-trivial = at least two "
             "streams reached the upstream side or a buffer was used.")
-    budget = {"quick": 1200, "thorough": 20000}
-    time_budget = {"quick": 35, "thorough": 650}
+    budget = {"quick": 800, "thorough": 20000}
+    time_budget = {"quick": 25, "thorough": 650}
     fingerprints = [
         "mitmproxy.proxy.layers.http._http2:Http2Client._handle_event",
         "mitmproxy.proxy.layers.http._http2:Http2Client._handle_event2",
